@@ -43,7 +43,16 @@ pub struct Cfg {
     /// this capability (whatever it learnt then must not outlive the change)
     #[serde(default)]
     pub prior: Option<Disc>,
+    /// length of the user id (0 = the 15-byte default); WebAuthn allows 1..=64 bytes
+    #[serde(default)]
+    pub user_len: u8,
+    /// k > 0 (with residentKey absent): the options travel as JSON and carry the k-th unknown residentKey string, which a
+    /// client has to treat like an absent member
+    #[serde(default)]
+    pub rk_json: u8,
 }
+
+const UNKNOWN_RK: [&str; 4] = ["mandatory", "Required", "", "discoverable"];
 
 type Acquire = Box<dyn Fn() -> Box<dyn std::any::Any>>;
 
@@ -141,6 +150,10 @@ fn check_with<S: passkey_authenticator::CredentialStore<PasskeyItem = passkey_ty
     }
     let supports_rk = c.cap != Disc::OnlyNonDiscoverable;
     let site = &SITES[0];
+    let handle: Vec<u8> = if c.user_len == 0 { b"c11-user-handle".to_vec() } else { (0..c.user_len).map(|i| b'a' + i % 26).collect() };
+    if c.user_len != 0 {
+        ctx.class(&format!("user id of {} bytes", c.user_len));
+    }
     if let Some((rkreq, require, cred_props, with_sel)) = c.client {
         let mut client = Client::new_with_custom_tld_provider(auth, HProvider::new(ProviderKind::Default));
         let rk = if with_sel { mapped_rk(rkreq, require, supports_rk) } else { false };
@@ -162,7 +175,22 @@ fn check_with<S: passkey_authenticator::CredentialStore<PasskeyItem = passkey_ty
             1 => Some(AuthenticationExtensionsClientInputs { cred_props: Some(false), prf: prf_in, ..Default::default() }),
             _ => Some(AuthenticationExtensionsClientInputs { cred_props: Some(true), prf: prf_in, ..Default::default() }),
         };
-        let req = cer::creation_options(site.rp, b"c11 challenge", b"c11-user-handle", "user", &[-7], None, sel, ext);
+        let mut req = cer::creation_options(site.rp, b"c11 challenge", &handle, "user", &[-7], None, sel, ext);
+        if c.rk_json > 0 && with_sel && rkreq == 0 {
+            let mut v = serde_json::to_value(&req).map_err(|e| format!("creation options do not serialise: {e}"))?;
+            v["publicKey"]["authenticatorSelection"]["residentKey"] = serde_json::json!(UNKNOWN_RK[c.rk_json as usize % UNKNOWN_RK.len()]);
+            match serde_json::from_value(v) {
+                Ok(r) => {
+                    req = r;
+                    ctx.class("options through JSON with an unknown residentKey string");
+                }
+                Err(_) => {
+                    // whether such a document parses is C14's question
+                    ctx.measure("options with an unknown residentKey string did not parse (C14's matter)", 1);
+                    return Ok(());
+                }
+            }
+        }
         let res = run_held(client.register(site.origin(), req, DefaultClientData), acquire.as_ref())?;
         let refused_expected = rk && c.cap == Disc::OnlyNonDiscoverable;
         let creds = store.creds();
@@ -201,7 +229,7 @@ fn check_with<S: passkey_authenticator::CredentialStore<PasskeyItem = passkey_ty
                 if discoverable != c.cap.discoverable(rk) && !dynamic {
                     return Err(format!("stored user handle present = {discoverable}, capability {:?} with rk={rk} means {}", c.cap, c.cap.discoverable(rk)));
                 }
-                if discoverable && creds[0].user_handle.as_ref().map(|b| b.to_vec()) != Some(b"c11-user-handle".to_vec()) {
+                if discoverable && creds[0].user_handle.as_ref().map(|b| b.to_vec()) != Some(handle.clone()) {
                     return Err("stored user handle is not the request's user id".into());
                 }
                 let cp = cred.client_extension_results.cred_props.as_ref();
@@ -235,7 +263,7 @@ fn check_with<S: passkey_authenticator::CredentialStore<PasskeyItem = passkey_ty
                     if a.response.user_handle.is_some() != discoverable {
                         return Err(format!("assertion #{round} returned a user handle = {}, the credential stores one = {discoverable}", a.response.user_handle.is_some()));
                     }
-                    if discoverable && a.response.user_handle.map(|b| b.to_vec()) != Some(b"c11-user-handle".to_vec()) {
+                    if discoverable && a.response.user_handle.map(|b| b.to_vec()) != Some(handle.clone()) {
                         return Err(format!("assertion #{round} returned a different user handle than stored"));
                     }
                 }
@@ -260,7 +288,7 @@ fn check_with<S: passkey_authenticator::CredentialStore<PasskeyItem = passkey_ty
         let req = make_credential::Request {
             client_data_hash: vec![7u8; 32].into(),
             rp: make_credential::PublicKeyCredentialRpEntity { id: "example.com".into(), name: None },
-            user: passkey_types::webauthn::PublicKeyCredentialUserEntity { id: b"c11-user-handle".to_vec().into(), display_name: "d".into(), name: "n".into() },
+            user: passkey_types::webauthn::PublicKeyCredentialUserEntity { id: handle.clone().into(), display_name: "d".into(), name: "n".into() },
             pub_key_cred_params: cer::params(&[-7]),
             exclude_list: None,
             extensions: None,
@@ -320,65 +348,81 @@ pub fn all_configs() -> Vec<Cfg> {
             for require in [false, true] {
                 for cp in 0..3u8 {
                     for prf in [false, true] {
-                        v.push(Cfg { cap, client: Some((rkreq, require, cp, true)), ctap_rk: None, prf, cap_after_prompt: None, wrap: 0, uv_cap: 0, contended: false, prior: None });
+                        v.push(Cfg { cap, client: Some((rkreq, require, cp, true)), ctap_rk: None, prf, cap_after_prompt: None, wrap: 0, uv_cap: 0, contended: false, prior: None, user_len: 0, rk_json: 0 });
                     }
                 }
             }
         }
         // no authenticatorSelection at all
         for cp in 0..3u8 {
-            v.push(Cfg { cap, client: Some((0, false, cp, false)), ctap_rk: None, prf: false, cap_after_prompt: None, wrap: 0, uv_cap: 0, contended: false, prior: None });
-            v.push(Cfg { cap, client: Some((0, false, cp, false)), ctap_rk: None, prf: true, cap_after_prompt: None, wrap: 0, uv_cap: 0, contended: false, prior: None });
+            v.push(Cfg { cap, client: Some((0, false, cp, false)), ctap_rk: None, prf: false, cap_after_prompt: None, wrap: 0, uv_cap: 0, contended: false, prior: None, user_len: 0, rk_json: 0 });
+            v.push(Cfg { cap, client: Some((0, false, cp, false)), ctap_rk: None, prf: true, cap_after_prompt: None, wrap: 0, uv_cap: 0, contended: false, prior: None, user_len: 0, rk_json: 0 });
         }
         for rk in [false, true] {
-            v.push(Cfg { cap, client: None, ctap_rk: Some(rk), prf: false, cap_after_prompt: None, wrap: 0, uv_cap: 0, contended: false, prior: None });
+            v.push(Cfg { cap, client: None, ctap_rk: Some(rk), prf: false, cap_after_prompt: None, wrap: 0, uv_cap: 0, contended: false, prior: None, user_len: 0, rk_json: 0 });
         }
         // the store handed over inside each lock wrapper, and authenticators whose user verification is not configured / absent
         for rkreq in 0..4u8 {
             for require in [false, true] {
                 for wrap in 1..5u8 {
-                    v.push(Cfg { cap, client: Some((rkreq, require, 2, true)), ctap_rk: None, prf: false, cap_after_prompt: None, wrap, uv_cap: 0, contended: false, prior: None });
+                    v.push(Cfg { cap, client: Some((rkreq, require, 2, true)), ctap_rk: None, prf: false, cap_after_prompt: None, wrap, uv_cap: 0, contended: false, prior: None, user_len: 0, rk_json: 0 });
                 }
                 for uv_cap in 1..3u8 {
-                    v.push(Cfg { cap, client: Some((rkreq, require, 2, true)), ctap_rk: None, prf: false, cap_after_prompt: None, wrap: 0, uv_cap, contended: false, prior: None });
+                    v.push(Cfg { cap, client: Some((rkreq, require, 2, true)), ctap_rk: None, prf: false, cap_after_prompt: None, wrap: 0, uv_cap, contended: false, prior: None, user_len: 0, rk_json: 0 });
                 }
             }
         }
         for rk in [false, true] {
             for wrap in 1..5u8 {
-                v.push(Cfg { cap, client: None, ctap_rk: Some(rk), prf: false, cap_after_prompt: None, wrap, uv_cap: 0, contended: false, prior: None });
+                v.push(Cfg { cap, client: None, ctap_rk: Some(rk), prf: false, cap_after_prompt: None, wrap, uv_cap: 0, contended: false, prior: None, user_len: 0, rk_json: 0 });
             }
             for uv_cap in 1..3u8 {
-                v.push(Cfg { cap, client: None, ctap_rk: Some(rk), prf: false, cap_after_prompt: None, wrap: 0, uv_cap, contended: false, prior: None });
+                v.push(Cfg { cap, client: None, ctap_rk: Some(rk), prf: false, cap_after_prompt: None, wrap: 0, uv_cap, contended: false, prior: None, user_len: 0, rk_json: 0 });
             }
         }
         // the judged registration follows an earlier resident registration made while the store had another capability
         for prior in Disc::ALL.into_iter().filter(|p| *p != cap && *p != Disc::OnlyNonDiscoverable) {
             for rkreq in 0..4u8 {
                 for require in [false, true] {
-                    v.push(Cfg { cap, client: Some((rkreq, require, 2, true)), ctap_rk: None, prf: false, cap_after_prompt: None, wrap: 0, uv_cap: 0, contended: false, prior: Some(prior) });
+                    v.push(Cfg { cap, client: Some((rkreq, require, 2, true)), ctap_rk: None, prf: false, cap_after_prompt: None, wrap: 0, uv_cap: 0, contended: false, prior: Some(prior), user_len: 0, rk_json: 0 });
                 }
             }
             for rk in [false, true] {
-                v.push(Cfg { cap, client: None, ctap_rk: Some(rk), prf: false, cap_after_prompt: None, wrap: 0, uv_cap: 0, contended: false, prior: Some(prior) });
+                v.push(Cfg { cap, client: None, ctap_rk: Some(rk), prf: false, cap_after_prompt: None, wrap: 0, uv_cap: 0, contended: false, prior: Some(prior), user_len: 0, rk_json: 0 });
             }
         }
         // registrations through the Arc wrappers while another task holds the store lock
         for wrap in [3u8, 4] {
             for rkreq in 0..4u8 {
                 for require in [false, true] {
-                    v.push(Cfg { cap, client: Some((rkreq, require, 2, true)), ctap_rk: None, prf: false, cap_after_prompt: None, wrap, uv_cap: 0, contended: true, prior: None });
+                    v.push(Cfg { cap, client: Some((rkreq, require, 2, true)), ctap_rk: None, prf: false, cap_after_prompt: None, wrap, uv_cap: 0, contended: true, prior: None, user_len: 0, rk_json: 0 });
                 }
             }
             for rk in [false, true] {
-                v.push(Cfg { cap, client: None, ctap_rk: Some(rk), prf: false, cap_after_prompt: None, wrap, uv_cap: 0, contended: true, prior: None });
+                v.push(Cfg { cap, client: None, ctap_rk: Some(rk), prf: false, cap_after_prompt: None, wrap, uv_cap: 0, contended: true, prior: None, user_len: 0, rk_json: 0 });
+            }
+        }
+        // user ids of every boundary length WebAuthn allows, and options that travel as JSON with an unknown residentKey string
+        for user_len in [1u8, 2, 16, 32, 63, 64] {
+            for (rkreq, require) in [(0u8, false), (0, true), (2, false), (3, true)] {
+                v.push(Cfg { cap, client: Some((rkreq, require, 2, true)), ctap_rk: None, prf: false, cap_after_prompt: None, wrap: 0, uv_cap: 0, contended: false, prior: None, user_len, rk_json: 0 });
+            }
+            for rk in [false, true] {
+                v.push(Cfg { cap, client: None, ctap_rk: Some(rk), prf: false, cap_after_prompt: None, wrap: 0, uv_cap: 0, contended: false, prior: None, user_len, rk_json: 0 });
+            }
+        }
+        for rk_json in 1..5u8 {
+            for require in [false, true] {
+                for cp in [0u8, 2] {
+                    v.push(Cfg { cap, client: Some((0, require, cp, true)), ctap_rk: None, prf: false, cap_after_prompt: None, wrap: 0, uv_cap: 0, contended: false, prior: None, user_len: 0, rk_json });
+                }
             }
         }
         // the capability changes while the user is being asked (credProps requested)
         for new_cap in Disc::ALL.into_iter().filter(|n| *n != cap) {
             for rkreq in 0..4u8 {
                 for require in [false, true] {
-                    v.push(Cfg { cap, client: Some((rkreq, require, 2, true)), ctap_rk: None, prf: false, cap_after_prompt: Some(new_cap), wrap: 0, uv_cap: 0, contended: false, prior: None });
+                    v.push(Cfg { cap, client: Some((rkreq, require, 2, true)), ctap_rk: None, prf: false, cap_after_prompt: Some(new_cap), wrap: 0, uv_cap: 0, contended: false, prior: None, user_len: 0, rk_json: 0 });
                 }
             }
         }
